@@ -41,11 +41,14 @@ def main(tier):
         out = os.path.join(scratch, "opt.ndjson")
         g = tlc.run("OptimizerGen", dict(spec="Spec", constants=base, invariants=INV + ["Collect"], postcondition="Export"), workers=1, env={"OUT_FILE": out}, scratch=scratch)
         recs = tlc.read_ndjson(out)
+        # run variants of every behaviour with more than one molecule: rows of growing size with the moving atom last; no log
+        nbase = len(recs)
+        recs = recs + [dict(r, layout="last") for r in recs if len(r["x0"]) > 1] + [dict(r, log=False) for r in recs[::3]]
         res = common.run_forked(recs, opt_driver.run_exact, timeout=300)
         n_ok = 0
         samples = []
         for rec, rr in zip(recs, res):
-            fields = dict(cap=rec["cap"], tol8=rec["tol8"], ambiguous=rec["ambiguous"])
+            fields = dict(cap=rec["cap"], tol8=rec["tol8"], ambiguous=rec["ambiguous"], layout=rec.get("layout", "first"), log=rec.get("log", True))
             if not rr.get("ok"):
                 rep.violation("replay_failed", {"case": {k: rec[k] for k in ("x0", "tol8", "cap")}, "error": rr.get("error"), "tb": str(rr.get("tb"))[-300:]}, **fields)
                 continue
